@@ -216,3 +216,16 @@ func funcName(f *ssa.Function) string {
 	}
 	return f.RelString(f.Pkg.Pkg)
 }
+
+// RealFile returns the file a position is really in (ignoring //line directives), relative to the root.
+func (p *Program) RealFile(pos token.Pos) string {
+	if !pos.IsValid() {
+		return "?"
+	}
+	ps := p.Fset.PositionFor(pos, false)
+	rel, err := filepath.Rel(p.Root, ps.Filename)
+	if err != nil {
+		rel = ps.Filename
+	}
+	return rel
+}
